@@ -52,6 +52,7 @@ package diskwriter
 //@ -- at that track's own clock rate
 //@ func (*diskTrack).adjustOrigin
 //@   safe
+//@   ematch
 //@   props C20 C12
 //@   requires nonnil: t != nil && t.conn != nil && t.remote != nil
 //@   -- type invariant of a recording connection (assumed): its tracks are real and have a publisher
@@ -60,6 +61,15 @@ package diskwriter
 //@   invariant loop 1 range: -1 <= rangeindex && rangeindex < len(old(t.conn.tracks))
 //@   invariant loop 1 tracks: t != nil && t.remote != nil && (forall k int :: 0 <= k && k < len(old(t.conn.tracks)) ==> old(t.conn.tracks)[k] != nil && old(t.conn.tracks)[k].remote != nil)
 //@   assert at call ToDuration shift: arg_tm == int64(int32(ts - uint32(old(t.origin)))) && arg_hz == icall("conn.UpTrack.Codec", t.remote).ClockRate
+//@   invariant loop 1 origin-stays: old(valid(t.origin)) ==> valid(t.origin)
+//@   invariant loop 1 same-tracks: same(t.conn, old(t.conn)) && same(t.conn.tracks, old(t.conn.tracks)) && t.remote == old(t.remote)
+//@   invariant loop 1 tracks-kept: forall k int :: 0 <= k && k < len(old(t.conn.tracks)) ==> old(t.conn.tracks)[k] == old(t.conn.tracks[k])
+//@   invariant loop 1 conns-kept: forall k int :: 0 <= k && k < len(old(t.conn.tracks)) ==> old(t.conn.tracks)[k].conn == old(t.conn.tracks[k].conn)
+//@   invariant loop 1 remotes-kept: forall k int :: 0 <= k && k < len(old(t.conn.tracks)) ==> old(t.conn.tracks)[k].remote == old(t.conn.tracks[k].remote)
+//@   ensures origin-stays: old(valid(t.origin)) ==> valid(t.origin)
+//@   ensures keeps: t.conn == old(t.conn) && t.remote == old(t.remote) && same(t.conn.tracks, old(t.conn.tracks))
+//@   ensures keeps-tracks: forall k int :: 0 <= k && k < len(t.conn.tracks) ==> t.conn.tracks[k] == old(t.conn.tracks[k])
+//@        && t.conn.tracks[k].conn == old(t.conn.tracks[k].conn) && t.conn.tracks[k].remote == old(t.conn.tracks[k].remote)
 //@   assert at call some shifted: valid(tt.origin) && arg_value == uint32(tt.origin) + uint32(callresult("FromDuration", 1))
 //@   assert at call FromDuration own-clock: arg_d == callresult("ToDuration", 1) && arg_hz == icall("conn.UpTrack.Codec", tt.remote).ClockRate
 //@
@@ -95,12 +105,68 @@ package diskwriter
 //@   -- second loop: every writer is closed, and nothing creates a new one
 //@   invariant loop 2 range: -1 <= rangeindex$2 && rangeindex$2 < len(old(conn.tracks)) && conn != nil && same(conn.tracks, old(conn.tracks))
 //@   invariant loop 2 tracks: forall k int :: 0 <= k && k < len(old(conn.tracks)) ==> old(conn.tracks)[k] == old(conn.tracks[k]) && wellformed(old(conn.tracks)[k])
-//@        && old(conn.tracks)[k] != nil
+//@        && old(conn.tracks)[k] != nil && old(conn.tracks)[k].conn == conn && old(conn.tracks)[k].remote != nil
 //@   invariant loop 2 collected: len(tracks) == rangeindex$2 + 1 && (fresh(tracks) || isnil(tracks)) && (forall k int :: 0 <= k && k <= rangeindex$2 ==> tracks[k] == old(conn.tracks[k]))
 //@   invariant loop 2 closed-so-far: forall k int :: 0 <= k && k <= rangeindex$2 ==> old(conn.tracks)[k].writer == nil
 //@   ensures all-closed: forall k int :: 0 <= k && k < len(result) ==> result[k] != nil && result[k].writer == nil
 //@   ensures all-tracks: len(result) == len(old(conn.tracks)) && (forall k int :: 0 <= k && k < len(result) ==> result[k] == old(conn.tracks[k]))
 //@   ensures no-file: conn.file == nil
+//@   ensures keeps: same(conn.tracks, old(conn.tracks))
+//@   ensures keeps-tracks: forall k int :: 0 <= k && k < len(conn.tracks) ==> conn.tracks[k] == old(conn.tracks[k])
+//@        && conn.tracks[k].conn == conn && conn.tracks[k].remote != nil
+//@
+//@ -- C20 (no frame after the first keyframe is missing): when a keyframe opens a file - the first one, or a new one because the picture
+//@ -- size changed - the track that carries it has a time origin afterwards, so that the keyframe itself and the frames after it are written
+//@ func (*diskConn).open
+//@   trusted
+//@   why diskwriter.go: creates the recording file under the client's os.Root and stores it in conn.file
+//@   requires nonnil: conn != nil
+//@   modifies conn.file
+//@ extern github.com/at-wat/ebml-go/mkvcore.NewMultiTrackBlockSorter
+//@   why ebml-go: builds a block sorter; no effect on the recorder's state
+//@   modifies nothing
+//@ extern github.com/at-wat/ebml-go/mkvcore.NewSimpleBlockWriter
+//@   why ebml-go: writes the container header to the file and returns one writer per described track; no effect on the recorder's state
+//@   modifies nothing
+//@ extern github.com/at-wat/ebml-go/mkvcore.WithMaxDelayedPackets
+//@   why ebml-go: option constructor
+//@   modifies nothing
+//@ extern github.com/at-wat/ebml-go/mkvcore.WithSortRule
+//@   why ebml-go: option constructor
+//@   modifies nothing
+//@ extern github.com/at-wat/ebml-go/mkvcore.WithEBMLHeader
+//@   why ebml-go: option constructor
+//@   modifies nothing
+//@ extern github.com/at-wat/ebml-go/mkvcore.WithSegmentInfo
+//@   why ebml-go: option constructor
+//@   modifies nothing
+//@ extern github.com/at-wat/ebml-go/mkvcore.WithBlockInterceptor
+//@   why ebml-go: option constructor
+//@   modifies nothing
+//@
+//@ func (*diskTrack).setOrigin
+//@   safe
+//@   props C20 C12
+//@   requires nonnil: t != nil && t.conn != nil
+//@   modifies t.origin, t.conn.originLocal, t.conn.originRemote
+//@   -- whichever way the origin is computed, the track has one afterwards
+//@   ensures has-origin: valid(t.origin)
+//@
+//@ func (*diskConn).initWriter
+//@   ematch
+//@   props C20
+//@   requires nonnil: conn != nil
+//@   assume tracks: forall k int :: 0 <= k && k < len(conn.tracks) ==> wellformed(conn.tracks[k]) && conn.tracks[k] != nil && conn.tracks[k].remote != nil && conn.tracks[k].conn == conn
+//@   -- (the track that carries the keyframe is one of the connection's tracks)
+//@   assume track: track != nil ==> wellformed(track) && (exists k int :: 0 <= k && k < len(conn.tracks) && conn.tracks[k] == track)
+//@   modifies *
+//@   invariant loop 1 track-ok: track != nil ==> track.conn == conn && track.remote != nil
+//@   invariant loop 1 origin: track != nil && old(valid(track.origin)) ==> valid(track.origin)
+//@   invariant loop 1 tracks: forall k int :: 0 <= k && k < len(old(conn.tracks)) ==> wellformed(old(conn.tracks)[k]) && old(conn.tracks)[k] != nil
+//@        && old(conn.tracks)[k].remote != nil && old(conn.tracks)[k].conn == conn
+//@   invariant loop 2 origin: track != nil && old(valid(track.origin)) ==> valid(track.origin)
+//@   -- a track that had a time origin has one when the file has been (re)opened: the keyframe that opens the file, and what follows, is written
+//@   ensures origin-kept: isnil(result) && track != nil && old(valid(track.origin)) ==> valid(track.origin)
 //@
 //@ func requestKeyframe
 //@   trusted
